@@ -14,10 +14,14 @@
    index was broken at the pinned commit (known findings C20-wildcard-preference / C05-wildcard-retrieval, both repaired in /repo;
    the index itself is now proved exact, Properties/C20.v) - the cached call site answers, over ANY history of lookups, rows that
    stand for exactly the assignments the uncached operator's rows stand for: transparency as a SET of assignments.
+   THE CALL SITES HAVE THE MODELLED SHAPE (C05_call_sites_as_modelled): the translator locates, in Comparator / AND / ElseIf
+   ._evaluate__, the one coverage test of the operator's cache, checks that a covered lookup is replayed from the cache and nothing
+   else (most general of the retrieved rows), that rows are stored by update_cache with the flag of the current row, and WHERE the
+   test stands (ElseIf asks its right-side cache only for a row its left side rejected) - on every run.
    MISSING: that no assignment comes out twice when rows leave keys open (what the selection of the most general retrieved rows is
-   for), that each call site of symbolic.py has the modelled shape, and which `yield_when_false` a cached row was recorded under:
-   covered by the correspondence check (cache on vs cache off vs specification), not by a theorem. *)
-From EQL Require Import Base Memo_Facts IndexedCache IndexedCache_Facts IndexedCache_Sound IndexedMemo_Facts IndexedMemo_Den.
+   for), and which `yield_when_false` a cached row was recorded under: covered by the correspondence check (cache on vs cache off
+   vs specification), not by a theorem. *)
+From EQL Require Import Base Generated Memo_Facts IndexedCache IndexedCache_Facts IndexedCache_Sound IndexedMemo_Facts IndexedMemo_Den.
 
 Theorem C05_memo_transparent_partial : forall (K R : Type) (keqb : K -> K -> bool),
   (forall a b, keqb a b = true <-> a = b) -> forall (f : K -> R) ks st,
@@ -131,3 +135,10 @@ Qed.
 Example C05_nonvacuous :
   Memo_Facts.run nat nat Nat.eqb (fun k => k * k) [] [3; 4; 3; 3; 5; 4] = map (fun k => k * k) [3; 4; 3; 3; 5; 4].
 Proof. vm_compute. reflexivity. Qed.
+
+(* the three facts about the CURRENT source the call-site model rests on (re-read on every run; each stops compiling if the code
+   moves away from the modelled shape) *)
+Theorem C05_call_sites_as_modelled :
+  cached_call_sites_as_modelled = true /\ replay_keeps_most_general = true /\ row_flag_is_current = true.
+Proof. repeat split; reflexivity. Qed.
+Print Assumptions C05_call_sites_as_modelled.
